@@ -114,6 +114,8 @@ var pureOps = []pureOp{
 		}
 		return sb.String() + fmt.Sprint(seqToks(a.g.DumpCoordinates()))
 	}},
+	{"Summary", func(a, b *sharedVal) string { return a.g.Summary() + a.g.String() }},
+	{"DumpCoordinates", func(a, b *sharedVal) string { return fmt.Sprint(seqToks(a.g.DumpCoordinates())) }},
 	{"RotatedMBR", func(a, b *sharedVal) string {
 		return resStr(geom.RotatedMinimumAreaBoundingRectangle(a.g), nil) + resStr(geom.RotatedMinimumWidthBoundingRectangle(a.g), nil)
 	}},
@@ -200,6 +202,34 @@ func purityExec(c Case) Event {
 		if bx, ok := g.Envelope().AsBox(); ok {
 			items = append(items, rtree.BulkItem{Box: bx, RecordID: i + 1})
 		}
+	}
+	// Values that alias one another's storage, the way values do in real programs: LineStrings that are windows
+	// (Sequence.Slice) of one backing array with spare capacity behind each, wrapped into collections whose first member
+	// is such a line; and the pieces of a set-operation result, which share one array. An operation that appends into
+	// the spare capacity of its argument changes a sibling value, whose digest then no longer matches.
+	{
+		fs := make([]float64, 0, 64)
+		for k := 0; k < 9; k++ {
+			p := l.pt()
+			fs = append(fs, p.X+float64(k)/16, p.Y)
+		}
+		all := geom.NewSequence(fs, geom.DimXY)
+		w := []geom.LineString{geom.NewLineString(all.Slice(0, 3)), geom.NewLineString(all.Slice(3, 6)), geom.NewLineString(all.Slice(6, 9))}
+		pt := l.pt().AsPoint().AsGeometry()
+		vals = append(vals,
+			&sharedVal{g: geom.NewGeometryCollection([]geom.Geometry{w[0].AsGeometry(), pt, w[2].AsGeometry()}).AsGeometry()},
+			&sharedVal{g: w[1].AsGeometry()},
+			&sharedVal{g: geom.NewGeometryCollection([]geom.Geometry{w[1].AsGeometry(), w[0].AsGeometry()}).AsGeometry()},
+			&sharedVal{g: geom.NewMultiLineString(w).AsGeometry()})
+		long := geom.NewLineString(seqOf([]geom.XY{{X: 0, Y: 0}, {X: 1, Y: 1}, {X: 2, Y: 0}, {X: 3, Y: 1}, {X: 4, Y: 0}})).AsGeometry()
+		cut := mustWKT("MULTILINESTRING((0 0,1 1),(2 0,3 1),(3 1,4 0))")
+		if res, err := geom.Intersection(long, cut); err == nil {
+			vals = append(vals, &sharedVal{g: res})
+			for _, d := range res.Dump() {
+				vals = append(vals, &sharedVal{g: geom.NewGeometryCollection([]geom.Geometry{d, pt}).AsGeometry()})
+			}
+		}
+		nvals = len(vals)
 	}
 	for i := 0; i < 30; i++ {
 		p := l.pt()
